@@ -50,7 +50,7 @@ AddNodeArgs(c) ==
 Norm(r) == [s |-> r.s, ok |-> r.ok, err |-> r.err, emit |-> r.emit, ret |-> r.ok]
 
 IsEdit(c) == c[1] \notin {KUndo, KRedo}
-Ords(c) == IF c[1] \in {KAddNode, KPaint, KDelNode} THEN {1, 2} ELSE {1}
+Ords(c) == IF c[1] = KPaint THEN {1, 2, 3, 4} ELSE IF c[1] \in {KAddNode, KDelNode} THEN {1, 2} ELSE {1}
 
 StepOrd(S, c, ord) ==
     CASE c[1] = KAddNode -> Norm(UAddNode(S, AddNodeArgs(c), ord, TRUE))
